@@ -21,6 +21,7 @@ import os
 import shutil
 import subprocess
 import sys
+import threading
 import traceback
 from typing import Any, Dict, List, Optional, Sequence, Tuple
 
@@ -59,10 +60,15 @@ class _LibProxy:
         return getattr(self._real, name)
 
 
+_seq_lock = threading.Lock()
+
+
 def new_dir(tag: str = "srv") -> str:
     global _seq
-    _seq += 1
-    d = os.path.join(common.scratch_dir(tag), f"r{_seq}")
+    with _seq_lock:  # the subprocess driver may be used from several threads
+        _seq += 1
+        n = _seq
+    d = os.path.join(common.scratch_dir(tag), f"r{n}")
     os.makedirs(d)
     return d
 
